@@ -14,7 +14,7 @@ class Gen:
         self.in_fn = 0
         self.in_loop = 0
         self.ncb = 0                  # number of callback call sites emitted (upper bound on invocations is dynamic)
-        self.feat = dict(tryc=True, fns=True, lambdas=True, cbs=True, errors=True, refs=True, vecs=False, globals=False, strs=False, trybias=False, optbias=False, evals=False)
+        self.feat = dict(tryc=True, fns=True, lambdas=True, cbs=True, errors=True, refs=True, vecs=False, globals=False, strs=False, trybias=False, optbias=False, evals=False, overloads=True)
         if feat:
             self.feat.update(feat)
         self.hist = {}
@@ -151,6 +151,24 @@ class Gen:
                 return "(for (decl %s (int 0)) (bin < (id %s) (int %d)) (pre inc (id %s)) %s)" % (c, c, lim, c, body)     # the optimizer's pattern
             return "(for (decl %s (int %d)) (bin > (id %s) (int 0)) (pre dec (id %s)) %s)" % (c, lim, c, c, body)
         if k == 8:
+            if r.chance(1, 3):
+                # a declaration in an unusual position: the condition of an if, or a call argument; it belongs to the ENCLOSING scope
+                self.note("decl-odd-position")
+                n = self.fresh()
+                if r.chance(1, 2):
+                    st = "(if (decl %s %s) %s)" % (n, self.bool_expr(1), self.block(depth))
+                    self.declare(n, "bool")
+                else:
+                    st = "(print (decl %s %s))" % (n, self.int_expr(1))
+                    self.declare(n, "int")
+                if r.chance(1, 2):
+                    # alone in a block of its own (the block must keep its scope), possibly re-entered by a loop
+                    self.scopes[-1].pop(n, None)
+                    if r.chance(1, 2) and depth < self.maxdepth:
+                        c = self.fresh()
+                        return "(for (decl %s (int 0)) (bin < (id %s) (int 2)) (pre inc (id %s)) (block %s))" % (c, c, c, st)
+                    return "(block %s)" % st
+                return st
             return self.block(depth)
         if k == 9 and self.in_loop and depth > 0:
             self.note("break/continue")
@@ -168,6 +186,8 @@ class Gen:
             self.note("cb")
             return "(cb %d %s)" % (r.below(4), " ".join(self.int_expr() for _ in range(r.range(0, 2))))
         if k == 15 and self.feat["fns"] and depth == 0 and not self.in_fn:
+            if self.feat["overloads"] and r.chance(1, 3):
+                return self.overload_group()
             return self.def_stmt()
         if k == 16 and self.feat["lambdas"]:
             return self.lambda_stmt(depth)
@@ -202,7 +222,7 @@ class Gen:
     def opt_stmt(self, depth):
         """statements shaped to trigger the optimizer's passes"""
         r = self.rng
-        k = r.below(9)
+        k = r.below(10)
         ints = self.vars_of("int")
         if k == 0:
             self.note("opt-if-const")
@@ -263,6 +283,16 @@ class Gen:
                 self.note("opt-unused-call")
                 f = r.choice(fs)
                 return "(block (call (fid %s) %s) %s)" % (f, " ".join(self.int_expr() for _ in range(self.funs[f])), self.stmt(depth + 2))
+        if k == 8 and self.feat["fns"] and depth == 0 and not self.in_fn:
+            # a counting loop re-entered while an earlier activation of the same loop is still running (recursion from its body)
+            self.note("opt-for-reentered")
+            f = "f%d" % self.next_fn
+            self.next_fn += 1
+            d, acc, c = self.fresh(), self.fresh(), self.fresh()
+            lim = r.range(2, 3)                     # (not registered in self.funs: other code must not call it with a large depth)
+            return ("(block (noop)) (def %s (%s) (block (decl %s (int 0)) (for (decl %s (int 0)) (bin < (id %s) (int %d)) (pre inc (id %s)) "
+                    "(block (if (bin > (id %s) (int 0)) (block (eq += (id %s) (call (fid %s) (bin - (id %s) (int 1)))))) (eq += (id %s) (bin + (id %s) (int 1))) (print (id %s)))) (id %s))) "
+                    "(print (call (fid %s) (int %d)))" % (f, d, acc, c, c, lim, c, d, acc, f, d, acc, c, c, acc, f, r.range(1, 2)))
         if k == 7:
             self.note("opt-while-single")
             c = self.fresh()
@@ -368,6 +398,66 @@ class Gen:
         self.scopes = saved
         self.funs[f] = ar
         return "(def %s (%s) %s)" % (f, " ".join(params), body)
+
+    def overload_group(self):
+        """several definitions of one name: guarded and unguarded overloads of the same arity, typed parameters; then calls
+        with arguments that select different overloads, fall through every guard, or make a guard itself raise"""
+        r = self.rng
+        self.note("overloads")
+        f = "f%d" % self.next_fn
+        self.next_fn += 1
+        p = self.fresh()
+        defs = []
+        def body(tag):
+            return "(block (print (int %d)) (bin + (id %s) (int %d)))" % (tag, p, tag)
+        form = r.below(4)
+        if form == 0:
+            # guards on the value, optional unguarded fallback
+            defs.append("(defg %s (%s) (bin > (id %s) (int %d)) %s)" % (f, p, p, r.range(0, 3), body(100)))
+            if r.chance(1, 2):
+                defs.append("(defg %s (%s) (bin < (id %s) (int %d)) %s)" % (f, p, p, r.range(-2, 1), body(200)))
+            if r.chance(2, 3):
+                defs.append("(def %s (%s) %s)" % (f, p, body(300)))
+            if r.chance(1, 2):
+                defs.reverse()
+            args = [self.int_expr(1) for _ in range(r.range(2, 4))]
+        elif form == 1:
+            # a guard that can raise: division by the argument, a throwing callback, a script throw, a non-boolean result
+            self.note("guard-raises")
+            g = r.choice(["(bin == (bin / (int 6) (id %s)) (int 2))" % p,
+                          "(bin > (cb %d (id %s)) (int 0))" % (r.below(4), p),
+                          "(or (bin != (id %s) (int 1)) (bin == (throw (int 77)) (int 0)))" % p,
+                          "(id %s)" % p,
+                          "(bin < (id x999) (int 1))"])
+            if "cb" in g:
+                self.ncb += 1
+            defs.append("(defg %s (%s) %s %s)" % (f, p, g, body(100)))
+            if r.chance(1, 2):
+                defs.append("(def %s (%s) %s)" % (f, p, body(300)))
+            args = [r.choice(["(int 0)", "(int 1)", "(int 3)", self.int_expr(1)]) for _ in range(r.range(2, 4))]
+        elif form == 2:
+            # typed parameters select by the argument's type
+            self.note("typed-params")
+            kinds = r.shuffle(["int", "bool", None])[:r.range(1, 3)]
+            for t in kinds:
+                q = "(%s %s)" % (t, p) if t else p
+                b = "(block (print (int %d)) (int %d))" % ({"int": 1, "bool": 2, None: 3}[t], {"int": 1, "bool": 2, None: 3}[t])
+                defs.append("(def %s (%s) %s)" % (f, q, b))
+            args = [r.choice([self.int_expr(1), self.bool_expr(1)] + (["(str 1)"] if self.feat["strs"] else [])) for _ in range(r.range(2, 4))]
+        else:
+            # a definition repeated: same arity and types, unguarded -> error; differing only by a guard -> allowed
+            self.note("redefinition")
+            defs.append("(def %s (%s) %s)" % (f, p, body(300)))
+            defs.append(r.choice(["(def %s (%s) %s)" % (f, p, body(400)), "(defg %s (%s) (bin == (id %s) (int 1)) %s)" % (f, p, p, body(100)),
+                                  "(def %s ((int %s)) %s)" % (f, p, body(500))]))
+            args = ["(int 1)", "(int 2)"]
+        calls = []
+        for a in args:
+            c = "(print (call (fid %s) %s))" % (f, a)
+            if r.chance(1, 2):
+                c = "(try (block %s) (catch %s (block (print (int -7)))))" % (c, self.fresh())
+            calls.append(c)
+        return "(block (noop)) " + " ".join(defs) + " " + " ".join(calls)
 
     def fn_tail(self):
         self.scopes.append({})
